@@ -381,8 +381,11 @@ def r6(ctx, F):
     walk admits entries by Path::is_file (following links), so the stat recorded for the entry must follow links too, and both
     fields must come from the same stat result."""
     n = 0
+    # only what the recursive one-way sync can reach: a FileMeta built for another purpose (a statistics snapshot of bisync)
+    # is not what the quick check compares
+    scope = callgraph_of(F).reach(['incremental::run_sync_recursive'])
     for body in F.bodies.values():
-        if body.path.startswith('meta::tests') or '::tests::' in body.path:
+        if body.path.startswith('meta::tests') or '::tests::' in body.path or body.path not in scope:
             continue
         fl = flow_of(body)
         for bi in fl.cfg.reachable():
